@@ -3,7 +3,7 @@ from __future__ import annotations
 
 import numpy as np
 
-from .. import gen, geom
+from .. import gen, geom, snap
 from ..core import signature
 from ..monitor import Monitor
 
@@ -183,6 +183,30 @@ def run_unit(unit, rng, ctx):
         frames_check(t3, X1, ctx, what + ' [fresh object]', rng)
     else:
         frames_check(t1, X1, ctx, what + ' [after other accessors]', rng)
+    # a sub-trajectory that does not start at frame 0 (slice, split part) is a periodic trajectory of its own:
+    # its displacements, positions and cumulative displacements are those of its own frames
+    if T >= 4 and unit['i'] % 3 == 0:
+        a_ = int(rng.integers(1, T - 1))
+        b_ = int(rng.integers(a_ + 1, T + 1))
+        if rng.integers(2):
+            part, Us = t1[a_:b_], U[a_:b_]
+            origin = f'[{a_}:{b_}]'
+        else:
+            n_ = int(rng.integers(2, min(5, T - 1) + 1))
+            parts_ = t1.split(n_)
+            j_ = int(rng.integers(1, n_))
+            part = parts_[j_]
+            # locate the part's frames in the source (Trajectory.split ranges are C19's subject)
+            pp_ = snap.traj_positions_raw(part)
+            Xw = X1 - np.floor(X1)
+            start_ = next((s_ for s_ in range(0, T - len(pp_) + 1) if float(geom.circ_diff(pp_, Xw[s_ : s_ + len(pp_)]).max()) <= 1e-9), None)
+            Us = U[start_ : start_ + len(pp_)] if start_ is not None else None
+            origin = f'.split({n_})[{j_}]'
+        if Us is not None and len(Us) >= 1:
+            Xs = Us - np.floor(Us)
+            order_s = [str(x_) for x_ in rng.permutation(['displacements', 'positions', 'cumulative', 'distances'])] + ['positions']
+            examine(part, Xs, Us, m, ctx, what + f' [sub-trajectory {origin}]', order_s)
+            ctx.count('sub_trajectories_not_starting_at_frame_0')
     for key in ('cumulative', 'distances'):
         if key in o1 and key in o2:
             scale = max(1.0, float(np.abs(o1[key]).max()))
